@@ -58,6 +58,17 @@ def check_case(case):
             want = T10.cdb_length(model[name])
             _check_len(SCSICommand, op, want, name)
             _cross(tables, t, name, val)
+            # a command that *is* an operation code plus a service action (READ LONG(16) = 9Eh/11h,
+            # READ MEDIA SERIAL NUMBER = ABh/01h ...) exposes that service action with its T10 value
+            own = T10.SERVICE_ACTIONS.get(model[name], {})
+            if name in own:
+                with lib("service action of the command itself"):
+                    keys = list(op.serviceaction.keys)
+                expect(name in keys and getattr(op.serviceaction, name) == own[name], "mismatch:own_service_action_missing",
+                       table=t, name=name, exposed=sorted(keys)[:6], want=own[name])
+                for sa in keys:
+                    if sa in T10.ALL_SERVICE_ACTIONS:
+                        expect(sa in own, "mismatch:foreign_service_action_in_command_table", table=t, name=name, sa=sa)
             return True, ("t10_name",)
         _cross(tables, t, name, val)
         if "_OPCODE_" in name:
@@ -135,6 +146,17 @@ def check_case(case):
                    length=len(cmd.cdb))
             expect(len(cmd.cdb) == want and cmd.cdb[0] == v, "mismatch:ctor_cdb_length", value=v,
                    length=len(cmd.cdb), want=want)
+        # ... and when an existing command object encodes that operation code (build_cdb)
+        tur = TestUnitReady(OpCode("TEST_UNIT_READY", 0x00, {}))
+        try:
+            b = tur.build_cdb(opcode=v)
+        except Exception as e:  # noqa
+            expect(want is None and type(e).__name__ == "OpcodeException",
+                   "mismatch:build_cdb_refused_fixed_length_opcode" if want else "exc:%s@build_cdb" % type(e).__name__,
+                   value=v, error=repr(e)[:160])
+        else:
+            expect(want is not None, "mismatch:build_cdb_accepted_opcode_without_fixed_length", value=v, length=len(b))
+            expect(len(b) == want and b[0] == v, "mismatch:build_cdb_length", value=v, length=len(b), want=want)
         return True, ("length_rule",)
     raise common.HarnessError("bad case " + repr(case))
 
